@@ -23,7 +23,7 @@ import vlib
 from checks import loopfam as lf
 from checks.loopdriver import run_family
 from loopmodel import Script, check_names, make_scripted
-from symx.core import Ctx, Inconclusive, cur
+from symx.core import Ctx, Inconclusive, cur, timed_check
 from symx.values import SFloat, SInt, SLabel, fpval, model_float, model_int, to_ieee
 
 STR_LABELS = ['a', 'b', 'c', 'd']
@@ -311,6 +311,7 @@ def explore5(cfg: dict) -> dict:
             res['candidates'].append({'symbolic': r['bad'] + [f'cell {n}[{j}]' for n, j, _, _ in r['cell_bad']],
                                       'inputs': inp, 'replay': rep})
     res['exhausted'] = ctx.exhausted
+    res['smt_samples'] = list(ctx.samples)
     res['stats'] = ctx.stats.as_dict()
     res['assumptions'] = list(ctx.assumptions)
     res['shim_calls'] = dict(lf._SHIM.calls)
@@ -339,7 +340,7 @@ def _witness(ctx: Ctx, cfg: dict, extra: list) -> Optional[dict]:
         s.add(to_ieee(a, cache))
     for e in extra:
         s.add(to_ieee(e, cache))
-    r = str(s.check())
+    r = timed_check(s, 30.0)
     ctx.stats.queries[r] = ctx.stats.queries.get(r, 0) + 1
     if r == 'unsat':
         return None
